@@ -45,6 +45,16 @@ THEOREMS = {
     "C09_model_is_source_predict_viability": "translation of SparseDrugComboMCMCSample.predict_viability (arity 1 -> predict_single_drug, 2 -> predict, viability=True, else NotImplementedError) = theta_predict KViab on the sparse type",
     "C09_model_is_source_predict_conditional_mean": "same for predict_conditional_mean (viability=False) = theta_predict KMean",
     "C09_model_is_source_predict_conditional_variance": "translation of predict_conditional_variance (np.repeat(1 / precision, repeats=data.size)) = the model's variance, ZeroDivisionError at precision 0.0 included",
+    "C09_model_is_source_inter_predict_conditional_mean": "translation of SparseDrugComboInteractionMCMCSample.predict_conditional_mean (arity guard, gathered W * zeroed V2 * zeroed V2 summed over the last axis) = theta_predict KMean on the interaction type",
+    "C09_model_is_source_inter_predict_viability": "translation of its predict_viability (guard, the mean, the comprehension of lookup[c,dd1]*lookup[c,dd2] over zip(sample_ids, column 0, column 1) with KeyError, clip, exp(interaction + log(single)), clip) = theta_predict KViab on the interaction type",
+    "C09_model_is_source_inter_predict_conditional_variance": "translation of its predict_conditional_variance = the model's variance",
+    "C09_model_is_source_theta_predict": "the model's Theta interface theta_predict = the dispatch to the six translated methods, every kind, both sample types, every screen",
+    "C09_model_is_source_predict_viability_all": "translation of models.main.predict_viability_all (np.zeros, loop over range(n_thetas), get_theta, the method, row store, NaN raise) = predict_all KViab, for ANY implementation of the Theta methods that agrees with the model on the stored samples",
+    "C09_model_is_source_predict_mean_all": "same for predict_mean_all = predict_all KMean",
+    "C09_model_is_source_predict_variance_all": "translation of predict_variance_all (append loop, size raise, NaN raise, np.stack with its ValueError on no samples) = predict_all KVar",
+    "C09_model_is_source_predict_mean_avg": "translation of predict_mean_avg (zeros, accumulation loop, division by n_thetas) = predict_avg KMean",
+    "C09_model_is_source_predict_viability_avg": "translation of predict_viability_avg = predict_avg KViab",
+    "C09_model_is_source_main": "the five translated helpers of models/main.py run over the six translated methods = predict_all / predict_avg: no hypothesis about the methods is left",
 }
 ASSUMPTIONS = [
     "numpy integer fancy indexing returns a fresh copy; a negative index i reads row i+n; outside [-n,n) raises IndexError (exercised: ids -1, last row, too-small embeddings)",
@@ -64,7 +74,9 @@ EXPLANATION = ("Model: Model/Predict.v (gather copy with python index -1 = last 
                "sample trained on an experiment space without treatments (index validity is a hypothesis of the property).  "
                "SOURCE LINK (C09_model_is_source_*): copy_array_with_control_treatments_set_to_zero (common.py), ScreenBase.size / "
                "treatment_arity (data.py), predict, predict_single_drug and SparseDrugComboMCMCSample.predict_viability / "
-               "predict_conditional_mean / predict_conditional_variance (models/sparse_combo.py) are re-translated from VERIF_REPO into "
+               "predict_conditional_mean / predict_conditional_variance (models/sparse_combo.py), the same three methods of "
+               "SparseDrugComboInteractionMCMCSample (models/sparse_combo_interaction.py) and predict_viability_all / predict_mean_all / "
+               "predict_variance_all / predict_mean_avg / predict_viability_avg (models/main.py) are re-translated from VERIF_REPO into "
                "coq/theories/Generated/SrcPredict.v on every run and proved equal to the model for all inputs (the model's screens standing "
                "for the ScreenBase objects pydata_of gives; ScrN only at arities other than 1 and 2).  Which embedding is gathered with "
                "which id column, what is multiplied / added / summed, the control zeroing, the viability branch, the arity dispatch and "
@@ -78,8 +90,18 @@ EXPLANATION = ("Model: Model/Predict.v (gather copy with python index -1 = last 
                "(sadd), vec + vec (vadd), mat + mat (madd), mat * mat (mmul) for operands of EQUAL shape (numpy broadcasting of unequal "
                "shapes / its ValueError is not represented, as in the model); np.sum(x, -1) (sum_last); scipy expit (the oracle, "
                "entrywise); np.clip(x, a_min, a_max) (vclip); the literals 0.01, 0.99 as exact rationals; 1 / p (py_recip: "
-               "ZeroDivisionError at 0.0); np.repeat(x, repeats=n).  Calls of translated functions (copy_array_..., predict, "
-               "predict_single_drug, data.size, data.treatment_arity) run their translations.")
+               "ZeroDivisionError at 0.0); np.repeat(x, repeats=n).  Interaction type: its fields W, V2, precision; zip(a, b, c) (zip3); "
+               "single_effect_lookup[c, d] (lookup_key: the value under the key, KeyError when absent); float * float (qmul); np.exp, "
+               "np.log (the oracle, entrywise); np.clip of a Python list of floats.  models/main.py: thetas.n_thetas (the declared "
+               "count h_n), thetas.get_theta(i) (holder_get: ValueError outside 0..len-1, as ThetaHolder.get_theta which C10 links), "
+               "the three Theta method calls (the parameter pm; the theorem C09_model_is_source_main instantiates it with the "
+               "translated methods), np.zeros((n,)) / np.zeros((n, m)); result[i, :] (np_row); result[i, :] = v (np_set_row: "
+               "IndexError outside, ValueError unless v has the row's length or length 1 = broadcast); np.isnan(x).any() / "
+               "np.any(np.isnan(x)) (false: no NaN over the rationals, the floating-point abstraction of the model); x.size; "
+               "np.stack (ValueError on no arrays / unequal lengths); vec + vec; vec / int (np_div_int: entrywise, by 0 a non-empty "
+               "array becomes non-finite = the model's ERR_NAN).  Calls of translated functions (copy_array_..., predict, "
+               "predict_single_drug, self.predict_conditional_mean, data.size, data.treatment_arity) run their translations.  "
+               "Translator additions used: `T1 | T2` variable types (result in predict_variance_all), tuple-target comprehensions.")
 
 NAMES = ["a", "b", "c", "d"]
 DOSES = [0.5, 1.0, 2.0]
